@@ -30,26 +30,25 @@ def free (s : SpecCab) (t0 : Token) : SpecCab :=
 def clear (s : SpecCab) : SpecCab :=
   { live := fun _ => none, dead := fun t => s.dead t || (s.lookup t).isSome }
 
-def freeAll (s : SpecCab) : List Token → SpecCab
-  | [] => s
-  | t :: ts => (s.free t).freeAll ts
-
 end SpecCab
 
-/-- the tokens the callbacks of one `foreach` free, in order: invocation `k` frees `script k`,
-for the invocations that actually happen -/
-def Cab.eachFreed (c : Cab) (script : Nat → List Token) : List Token :=
-  (List.range (c.foreach script).2.length).flatMap script
-
 /-- the specification follows the cabinet only to learn which token `alloc` returned -/
-def specStep (c : Cab) (s : SpecCab) : CabOp → SpecCab
+def specAct (c : Cab) (s : SpecCab) : CbAct → SpecCab
   | .alloc o => match (c.alloc o).2 with
       | some tok => s.alloc tok o
       | none => s
   | .update t o => s.update t o
   | .free t => s.free t
   | .clear => s.clear
-  | .each f => s.freeAll (c.eachFreed f)
+
+def specActs (c : Cab) (s : SpecCab) : List CbAct → SpecCab
+  | [] => s
+  | a :: as => specActs (c.act a).1 (specAct c s a) as
+
+/-- an iteration is specified as the calls its callbacks made, one after the other -/
+def specStep (c : Cab) (s : SpecCab) : CabOp → SpecCab
+  | .act a => specAct c s a
+  | .each f => specActs c s (c.eachActs f)
 
 def specRun (c : Cab) (s : SpecCab) : List CabOp → SpecCab
   | [] => s
@@ -63,11 +62,5 @@ def Cab.tokenAt (cells : List Cell) (k p : Nat) : Option Token :=
 
 def Cab.liveTokens (c : Cab) : List Token :=
   (List.range c.cells.length).filterMap (Cab.tokenAt c.cells 0)
-
-/-- number of `alloc` operations in a history (the id counter advances once per `alloc`) -/
-def nAllocs : List CabOp → Nat
-  | [] => 0
-  | .alloc _ :: ops => nAllocs ops + 1
-  | _ :: ops => nAllocs ops
 
 end Tbox.C08
